@@ -1,6 +1,7 @@
-(* C31 - Bag.to_dict: every given object is serialised with all its attributes, provided no given object is referred to by another
+(* C31 - Bag.to_dict: every given object is serialised with all its attributes -- always, when related objects that were themselves
+   given are left alone (bag_skips_given_related, scanned from /repo); otherwise provided no given object is referred to by another
    given object (the complement is refuted in Findings/C31.v). *)
-Require Import PonyV.Base.PyBase PonyV.Model.C31Bag.
+Require Import PonyV.Base.PyBase PonyV.Model.C31Codec PonyV.Gen.C31Reduce PonyV.Model.C31Bag.
 
 Section Bag.
 Variable rel : nat -> list nat.
@@ -10,50 +11,57 @@ Proof. unfold set_mark. now rewrite Nat.eqb_refl. Qed.
 Lemma set_other o k m x : x <> o -> set_mark o k m x = m x.
 Proof. intros H. unfold set_mark. destruct (Nat.eqb x o) eqn:E; [apply Nat.eqb_eq in E; congruence | reflexivity]. Qed.
 
-(* marking a list of objects Partial: listed objects become Partial, the others keep their mark *)
-Lemma fold_partial l : forall m x,
-  fold_left (fun m r => set_mark r Partial m) l m x = if existsb (Nat.eqb x) l then Some Partial else m x.
+Lemma memb_In x l : memb x l = true <-> In x l.
+Proof.
+  unfold memb. rewrite existsb_exists. split; [intros (y & Hy & E); apply Nat.eqb_eq in E; now subst | intros H; exists x; split; [assumption | apply Nat.eqb_refl]].
+Qed.
+
+(* marking related objects: a listed object that is not exempt becomes Partial, every other object keeps its mark *)
+Lemma fold_partial skip given l : forall m x,
+  fold_left (fun m r => if skip && memb r given then m else set_mark r Partial m) l m x
+  = if existsb (Nat.eqb x) l && negb (skip && memb x given) then Some Partial else m x.
 Proof.
   induction l as [|r l IH]; intros m x; cbn [fold_left existsb]; [reflexivity|].
-  rewrite IH. destruct (existsb (Nat.eqb x) l); [now rewrite orb_true_r|]. rewrite orb_false_r.
-  unfold set_mark. reflexivity.
+  rewrite IH. destruct (existsb (Nat.eqb x) l && negb (skip && memb x given)) eqn:E.
+  - apply andb_true_iff in E. destruct E as [E1 E2]. rewrite E1, orb_true_r. cbn. now rewrite E2.
+  - destruct (Nat.eqb x r) eqn:Exr.
+    + apply Nat.eqb_eq in Exr. subst r. cbn [orb andb]. destruct (skip && memb x given); cbn [negb]; [reflexivity|].
+      unfold set_mark. now rewrite Nat.eqb_refl.
+    + cbn [orb]. rewrite E. destruct (skip && memb r given); [reflexivity|]. unfold set_mark. now rewrite Exr.
 Qed.
 
-Lemma existsb_In x l : existsb (Nat.eqb x) l = true <-> In x l.
-Proof.
-  rewrite existsb_exists. split; [intros (y & Hy & E); apply Nat.eqb_eq in E; now subst | intros H; exists x; split; [assumption | apply Nat.eqb_refl]].
-Qed.
-
-Lemma process_spec o m x :
-  process rel o m x = if Nat.eqb x o then Some Full else if existsb (Nat.eqb x) (rel o) then Some Partial else m x.
-Proof. unfold process, set_mark. destruct (Nat.eqb x o); [reflexivity|]. apply fold_partial. Qed.
+Lemma process_spec skip given o m x :
+  process_gen skip rel given o m x =
+  if Nat.eqb x o then Some Full else if existsb (Nat.eqb x) (rel o) && negb (skip && memb x given) then Some Partial else m x.
+Proof. unfold process_gen, set_mark. destruct (Nat.eqb x o); [reflexivity|]. apply fold_partial. Qed.
 
 Definition indep (L : list nat) : Prop := forall o o', In o L -> In o' L -> ~ In o' (rel o).
 
+(* ---- the original code (skip = false) ---- *)
 Definition inv (L done : list nat) (m : marks) : Prop :=
   (forall x, In x done -> m x = Some Full) /\
   (forall x, m x = Some Partial -> exists d, In d done /\ In x (rel d)).
 
-Lemma step_inv L done o m : indep L -> incl done L -> In o L -> inv L done m -> inv L (done ++ [o]) (bag_step rel m o).
+Lemma step_inv L done o m : indep L -> incl done L -> In o L -> inv L done m -> inv L (done ++ [o]) (bag_step_gen false rel L m o).
 Proof.
-  intros Hi Hd Ho [Hf Hp]. unfold bag_step. destruct (m o) as [k|] eqn:E.
+  intros Hi Hd Ho [Hf Hp]. unfold bag_step_gen. destruct (m o) as [k|] eqn:E.
   - split.
     + intros x Hx. apply in_app_or in Hx. destruct Hx as [Hx|[<-|[]]]; [now apply Hf|].
       destruct k; [assumption|]. destruct (Hp o E) as (d & Hdd & Hr). exfalso. exact (Hi d o (Hd d Hdd) Ho Hr).
     + intros x Hx. destruct (Hp x Hx) as (d & Hdd & Hr). exists d. split; [apply in_or_app; now left | assumption].
   - split.
-    + intros x Hx. rewrite process_spec. destruct (Nat.eqb x o) eqn:Exo; [reflexivity|].
+    + intros x Hx. rewrite process_spec. cbn [andb negb]. rewrite andb_true_r. destruct (Nat.eqb x o) eqn:Exo; [reflexivity|].
       apply in_app_or in Hx. destruct Hx as [Hx|[<-|[]]]; [|now rewrite Nat.eqb_refl in Exo].
       destruct (existsb (Nat.eqb x) (rel o)) eqn:Ex; [|now apply Hf].
-      apply existsb_In in Ex. exfalso. exact (Hi o x Ho (Hd x Hx) Ex).
-    + intros x. rewrite process_spec. destruct (Nat.eqb x o) eqn:Exo; [discriminate|].
+      apply memb_In in Ex. exfalso. exact (Hi o x Ho (Hd x Hx) Ex).
+    + intros x. rewrite process_spec. cbn [andb negb]. rewrite andb_true_r. destruct (Nat.eqb x o) eqn:Exo; [discriminate|].
       destruct (existsb (Nat.eqb x) (rel o)) eqn:Ex.
-      * intros _. exists o. split; [apply in_or_app; right; now left | now apply existsb_In].
+      * intros _. exists o. split; [apply in_or_app; right; now left | now apply memb_In].
       * intros Hx. destruct (Hp x Hx) as (d & Hdd & Hr). exists d. split; [apply in_or_app; now left | assumption].
 Qed.
 
 Lemma fold_inv L : indep L -> forall rest done m, incl done L -> incl rest L -> inv L done m ->
-  inv L (done ++ rest) (fold_left (bag_step rel) rest m).
+  inv L (done ++ rest) (fold_left (bag_step_gen false rel L) rest m).
 Proof.
   intros Hi. induction rest as [|o rest IH]; intros done m Hd Hr Hinv; cbn [fold_left].
   - now rewrite app_nil_r.
@@ -64,14 +72,61 @@ Proof.
     + apply step_inv; auto. apply Hr. now left.
 Qed.
 
-Theorem bag_given_full order : indep order -> forall o, In o order -> bag_to_dict rel order o = Some Full.
+Lemma given_full_old order : indep order -> forall o, In o order -> bag_to_dict_gen false rel order o = Some Full.
 Proof.
-  intros Hi o Ho. unfold bag_to_dict.
+  intros Hi o Ho. unfold bag_to_dict_gen.
   destruct (fold_inv order Hi order [] no_marks) as [Hf _].
   - intros x [].
   - apply incl_refl.
   - split; [intros x [] | intros x Hx; discriminate].
   - apply Hf. exact Ho.
+Qed.
+
+(* ---- the repaired code (skip = true): a given object is never stored as a related object ---- *)
+Definition inv2 (L done : list nat) (m : marks) : Prop :=
+  incl done L /\ (forall x, In x done -> m x = Some Full) /\ (forall x, In x L -> m x = None \/ m x = Some Full).
+
+Lemma step_inv2 L done o m : In o L -> inv2 L done m -> inv2 L (done ++ [o]) (bag_step_gen true rel L m o).
+Proof.
+  intros Ho (Hd & Hf & Hg).
+  assert (Hd' : incl (done ++ [o]) L) by (intros x Hx; apply in_app_or in Hx; destruct Hx as [Hx|[<-|[]]]; auto).
+  unfold bag_step_gen. destruct (m o) as [k|] eqn:E.
+  - split; [exact Hd'|]. split; [|assumption]. intros x Hx. apply in_app_or in Hx. destruct Hx as [Hx|[<-|[]]]; [now apply Hf|].
+    destruct (Hg o Ho) as [H|H]; congruence.
+  - assert (Hspec : forall x, In x L -> process_gen true rel L o m x = if Nat.eqb x o then Some Full else m x).
+    { intros x Hx. rewrite process_spec. destruct (Nat.eqb x o); [reflexivity|].
+      assert (H : memb x L = true) by now apply memb_In. rewrite H. cbn [andb negb]. now rewrite andb_false_r. }
+    split; [exact Hd'|]. split.
+    + intros x Hx. rewrite (Hspec x (Hd' x Hx)). destruct (Nat.eqb x o) eqn:Exo; [reflexivity|].
+      apply in_app_or in Hx. destruct Hx as [Hx|[<-|[]]]; [now apply Hf | now rewrite Nat.eqb_refl in Exo].
+    + intros x Hx. rewrite (Hspec x Hx). destruct (Nat.eqb x o); [now right | now apply Hg].
+Qed.
+
+Lemma fold_inv2 L : forall rest done m, incl rest L -> inv2 L done m ->
+  inv2 L (done ++ rest) (fold_left (bag_step_gen true rel L) rest m).
+Proof.
+  induction rest as [|o rest IH]; intros done m Hr Hinv; cbn [fold_left].
+  - now rewrite app_nil_r.
+  - replace (done ++ o :: rest) with ((done ++ [o]) ++ rest) by (rewrite <- app_assoc; reflexivity).
+    apply IH; [intros x Hx; apply Hr; now right | apply step_inv2; [apply Hr; now left | assumption]].
+Qed.
+
+Lemma given_full_new order : forall o, In o order -> bag_to_dict_gen true rel order o = Some Full.
+Proof.
+  intros o Ho. unfold bag_to_dict_gen.
+  destruct (fold_inv2 order order [] no_marks) as (_ & Hf & _).
+  - apply incl_refl.
+  - split; [intros x [] | split; [intros x [] | intros x _; now left]].
+  - apply Hf. exact Ho.
+Qed.
+
+(* whichever code /repo has *)
+Theorem bag_given_full order : bag_skips_given_related = true \/ indep order ->
+  forall o, In o order -> bag_to_dict rel order o = Some Full.
+Proof.
+  intros H o Ho. unfold bag_to_dict. destruct bag_skips_given_related eqn:E.
+  - now apply given_full_new.
+  - destruct H as [H|H]; [discriminate | now apply given_full_old].
 Qed.
 
 End Bag.
